@@ -42,6 +42,9 @@ Inductive case :=
 (* GetUplinkChannel(idx) / GetDownlinkChannel(idx): (frequency, MinDR, MaxDR) *)
 | CChan (i : N) (uplink : bool) (idx : Z) (o : outcome (Z * Z * Z))
 | CEnabledDRs (i : N) (l : list Z)
+(* after the AddChannel history [ops] (errs: which calls returned an error) the uplink channels
+   are [chans] = (frequency, MinDR, MaxDR) and GetEnabledUplinkDataRates() = l *)
+| CEnabledHist (i : N) (ops : list (Z * Z * Z)) (errs : list bool) (chans : list (Z * Z * Z)) (l : list Z)
 | CTxPow (i : N) (idx : Z) (o : outcome Z)
 | CDefaults (i : N) (d : defaults)
 | CDownTx (i : N) (f v : Z).
@@ -122,6 +125,9 @@ Definition check (c : case) : N :=
           (* unknown version / revision strings resolve to the latest table *)
           && (if unknown_ver then outcome_eqb pair_eqb o (get_max_payload t latest rev dr) else true)
           && (if unknown_rev then outcome_eqb pair_eqb o (get_max_payload t ver latest dr) else true)
+          (* every (version, revision) combination resolves: a data-rate the region lists since
+             its first release has a size under every version / revision string *)
+          && with_region cfg (fun reg => every_revision_ok reg (t_drs t) dr o)
           (* under latest/latest every defined data-rate has a size *)
           && (if (unknown_ver || String.eqb ver latest) && (unknown_rev || String.eqb rev latest)
                  && dr_defined t dr
@@ -151,6 +157,13 @@ Definition check (c : case) : N :=
   | CEnabledDRs i l =>
     let t := c_tab (cfg_at i) in
     code (list_eqb Z.eqb (get_enabled_uplink_data_rates t) l) (enabled_drs_closed t l)
+  | CEnabledHist i ops errs chans l =>
+    let t := c_tab (cfg_at i) in
+    let r := add_channels t ops in
+    code (list_eqb Bool.eqb (snd r) errs
+          && list_eqb chan3_eqb (map chan3_of (t_up (fst r))) chans
+          && list_eqb Z.eqb (get_enabled_uplink_data_rates (fst r)) l)
+         (enabled_drs_post_ok t chans l)
   | CTxPow i idx o =>
     let t := c_tab (cfg_at i) in
     code (oz_eqb (get_tx_power_offset t idx) o)
